@@ -193,7 +193,7 @@ func c12OneHistory(rep *childReport, seed int64, idx int) {
 	nWork := 1 + rng.Intn(3)
 	insPerProd := 2 + rng.Intn(5)
 	freezeAfter := 4 + rng.Intn(14) // controller freezes after this many recorded ops
-	perturb := rng.Intn(3)           // 0 none, 1 gosched, 2 tiny sleeps
+	perturb := rng.Intn(3)          // 0 none, 1 gosched, 2 tiny sleeps
 	outBuf := rng.Intn(2) * rng.Intn(3)
 
 	var prMu sync.Mutex
